@@ -74,6 +74,27 @@ def units_product(tier):
     return out
 
 
+def options_product(tier):
+    """public model options that the other products leave at their defaults, one at a time: effective diffusion distance off,
+    another incubation scaling (Wakeshima 4 pi), status printing during the run, the floor and the options together"""
+    quick = tier == 'quick'
+    opts = [{'effdist': False}, {'theta': 4 * 3.141592653589793}, {'solve': {'verbose': True, 'vIt': 7}},
+            {'effdist': False, 'theta': 0.5, 'solve': {'verbose': True, 'vIt': 1}}]
+    levels = {
+        'system': ['bin', 'tern'],
+        'nphases': [1, 2],
+        'it': ['euler', 'rk4'],
+        'opt': list(range(len(opts))),
+        'temp': ['iso'] if quick else ['iso', 'hrh', 'heat'],
+        'precdiff': ['inf'] if quick else ['inf', 'none'],
+    }
+    out = []
+    for c in _mk(levels, {'tf': 20.0, 'max_steps': 8000, 'constraints': {'dtScale': 0.05}}):
+        c.update(opts[c.pop('opt')])
+        out.append(c)
+    return out
+
+
 def floor_product(tier):
     """a positive constraints.minComposition that the matrix content of one solute crosses during the run (the matrix of the
     default alloys falls from 0.01 / 0.02 to 4e-4 / 1e-3): the documented clamp applies to NEGATIVE mass-balance values only"""
